@@ -167,6 +167,12 @@ def u3(prog, ctx, files):
             n += 1
             if (m.rel, q, p) in UNREAD_OK:
                 continue
+            # an implementation of a polymorphic method keeps the parameters of its siblings: if another method of the same name reads
+            # the parameter, this one ignoring it is interface conformance
+            if "." in q and any(f2 is not f and f2.name == f.name and "." in q2 and p in {x.id for x in ast.walk(f2) if isinstance(x, ast.Name)
+                                                                                           and isinstance(x.ctx, ast.Load)}
+                                for _m2, q2, f2 in prog.all_functions()):
+                continue
             setters = []
             for cm, cq, c in calls_by_name.get(f.name if f.name != "__init__" else q.split(".")[0], []):
                 cands = argswap.callee_candidates(prog, c)
